@@ -50,9 +50,21 @@ var c03Extended bool
 // operand, an operand-less AND): it is searched to its own fixpoint so that the base alphabet's state space stays small.
 var c03AndNot bool
 
+// c03Grouped selects the third small alphabet: grouped queries (the same expression under permuted, repeated and
+// different group-by lists; one column both tested and grouped by), searched to its own fixpoint.
+var c03Grouped bool
+
 func c03Alphabet() []c03Query {
 	a, b, c := model.Eq("a", "1"), model.Eq("b", "1"), model.Eq("c", "1")
 	q := func(e *model.Expr) c03Query { return c03Query{Expr: e} }
+	if c03Grouped {
+		return []c03Query{q(a), q(b),
+			{Expr: a, GroupBy: []string{"a"}}, {Expr: b, GroupBy: []string{"b"}}, {Expr: a, GroupBy: []string{"b"}},
+			{Expr: a, GroupBy: []string{"a", "a"}}, {Expr: model.Not(c), GroupBy: []string{"b", "c", "b"}},
+			{Expr: a, GroupBy: []string{"b", "c"}}, {Expr: a, GroupBy: []string{"c", "b"}},
+			{Expr: model.Or(a, c), GroupBy: []string{"b", "c"}}, {Expr: model.Or(a, c), GroupBy: []string{"c", "b"}},
+			{Expr: model.Not(a), GroupBy: []string{"a"}}, {Expr: model.Eq("b", "0"), GroupBy: []string{"b"}}}
+	}
 	if c03AndNot {
 		return []c03Query{q(a), q(b), q(c), q(model.Not(a)), q(model.And(a, b)),
 			q(model.And(a, model.Not(b))), q(model.And(c, model.Not(a), model.Not(b))), q(model.Or(b, model.Not(c))),
@@ -270,6 +282,7 @@ type c03Case struct {
 	Pair     []*model.Expr `json:"pair,omitempty"`
 	Extended bool          `json:"extended,omitempty"`
 	AndNot   bool          `json:"andnot,omitempty"`
+	Grouped  bool          `json:"grouped,omitempty"`
 	Prefix   bool          `json:"prefix,omitempty"`
 	Big      int           `json:"big,omitempty"`
 	Edit     []int         `json:"edit,omitempty"`
@@ -347,13 +360,14 @@ type c03Args struct {
 	Arity    int    `json:"arity"`
 	Extended bool   `json:"extended"`
 	AndNot   bool   `json:"andnot"`
+	Grouped  bool   `json:"grouped,omitempty"`
 }
 
 func c03Worker(ctx *rt.Ctx, job *rt.Job) []*rt.Violation {
 	flk.Sequential(true) // single goroutine: a lock of updog or bbolt that cannot be taken now never will be (reported as a hang)
 	var a c03Args
 	job.Decode(&a)
-	c03Extended, c03AndNot = a.Extended, a.AndNot
+	c03Extended, c03AndNot, c03Grouped = a.Extended, a.AndNot, a.Grouped
 	w := newC03World(ctx, a.Cfg)
 	defer w.close()
 	if a.Mode == "pairs" {
@@ -381,7 +395,7 @@ func c03Worker(ctx *rt.Ctx, job *rt.Job) []*rt.Violation {
 				ctx.Cov.Add("transitions", 1)
 				ctx.Cov.Add("traces_validated_against_impl", 1)
 				if viol != "" {
-					c := c03Case{Cfg: a.Cfg, History: hist, Extended: a.Extended, AndNot: a.AndNot}
+					c := c03Case{Cfg: a.Cfg, History: hist, Extended: a.Extended, AndNot: a.AndNot, Grouped: a.Grouped}
 					return []*rt.Violation{rt.NewViolation("C03", "history", c.sig(), c, "%s", viol)}
 				}
 				if !bind {
@@ -600,6 +614,10 @@ func c03Run(ctx *rt.Ctx) []*rt.Violation {
 				b, _ := json.Marshal(c03Args{Cfg: c03Cfg{Preload: pre, Cache: c}, Mode: "bfs", AndNot: true})
 				jobs = append(jobs, rt.Job{Name: "bfs-andnot-" + c, Args: b})
 			}
+			{
+				b, _ := json.Marshal(c03Args{Cfg: c03Cfg{Preload: pre, Cache: c}, Mode: "bfs", Grouped: true})
+				jobs = append(jobs, rt.Job{Name: "bfs-grouped-" + c, Args: b})
+			}
 			a := c03Args{Cfg: c03Cfg{Preload: pre, Cache: c}, Mode: "bfs"}
 			if ctx.Thorough() {
 				// base alphabet to fixpoint (as in quick) and the extended alphabet: to fixpoint for the small caches,
@@ -657,7 +675,7 @@ func c03Replay(ctx *rt.Ctx, v *rt.Violation) *rt.Violation {
 	if err := json.Unmarshal(v.Case, &c); err != nil {
 		rt.Harnessf("case: %v", err)
 	}
-	c03Extended, c03AndNot = c.Extended, c.AndNot
+	c03Extended, c03AndNot, c03Grouped = c.Extended, c.AndNot, c.Grouped
 	w := newC03World(ctx, c.Cfg)
 	defer w.close()
 	if c.Pair != nil {
@@ -672,7 +690,7 @@ func c03Replay(ctx *rt.Ctx, v *rt.Violation) *rt.Violation {
 	}
 	for n := 1; n <= len(c.History); n++ {
 		if viol, _ := w.play(c.History[:n], true); viol != "" {
-			cc := c03Case{Cfg: c.Cfg, History: c.History[:n], Extended: c.Extended, AndNot: c.AndNot}
+			cc := c03Case{Cfg: c.Cfg, History: c.History[:n], Extended: c.Extended, AndNot: c.AndNot, Grouped: c.Grouped}
 			return rt.NewViolation("C03", "history", cc.sig(), cc, "%s", viol)
 		}
 	}
